@@ -29,8 +29,9 @@ class JL(list):
 class Track:
     def __init__(self, pt):
         self._pt = pt
-    def pt(self) -> float:
-        return self._pt
+    def pt(self, scale: float = 10.0) -> float:
+        # (another default than Jet.pt: a call followed with the wrong class shows in the value)
+        return self._pt * scale
     def __repr__(self):
         return f"T({self._pt})"
     def __eq__(self, o):
@@ -159,6 +160,10 @@ STAGES = {
           ("Select", "{v}.Jets().Select(lambda j: (j.pt(), {v})[1].met() + j.pt())", "Fs"),
           ("Select", "{v}.Jets().Where(lambda j: [j, {v}][1].met() > j.pt()).Count()", "I")],
     "J": [("Select", "{v}.pt()", "F"), ("Where", "{v}.pt(scale=2.0) > 1", "J"),
+          # a nested lambda that re-uses the parameter's name for an object of ANOTHER class, the
+          # outer variable used again afterwards (seed C01_h: the inner parameter's type leaked out)
+          ("Select", "{v}.Tracks().Where(lambda {v}: {v}.pt() > 0).Count() + {v}.pt()", "F"),
+          ("Select", "({v}.Tracks().Select(lambda {v}: {v}.pt()).Count(), {v}.pt(), {v}.shift(1.0))[1]", "F"),
           ("Select", "({v}.pt(), {v}.eta())", "TFF"), ("SelectMany", "{v}.Tracks()", "T"),
           ("Select", "{v}.shift(b=2.0, a={v}.eta())", "F"), ("Select", "{v}.Tracks().Count()", "I"),
           ("Select", "{{'pt': {v}.pt(), 'ntrk': {v}.Tracks().Count()}}", "DJ"),
